@@ -22,6 +22,9 @@ def path_of(t):
             t = t.args[0]
         elif op in ("deref", "refv", "conv"):
             t = t.args[0]
+        elif op == "peeked":
+            parts.append("first")
+            t = t.args[0]
         elif op == "elem":
             parts.append("*")
             t = t.args[0]
@@ -58,6 +61,9 @@ def atoms(t, stop_ops=(), seen=None):
         p = path_of(x)
         if p is not None:
             out.add(("param", p))
+            continue
+        if op == "len" and path_of(x.args[0]) is not None:
+            out.add(("len", path_of(x.args[0])))
             continue
         if op == "rng":
             out.add(("rng", x.args[0], x.args[1], x.args[2]))
@@ -281,3 +287,81 @@ def variant(ret, idx):
         if a[0] == idx:
             return a
     return None
+
+
+# ---------------------------------------------------------------------------------------------------------
+# facts
+# ---------------------------------------------------------------------------------------------------------
+def norm_fact(f):
+    """normalise (term, rel, value) facts: strip boolean negation / conversions"""
+    t, rel, v = f
+    while True:
+        if t.op == "not" and rel == "eq" and v in (0, 1):
+            t, v = t.args[0], 1 - v
+            continue
+        if t.op in ("choice_bool", "conv") and len(t.args) == 1:
+            t = t.args[0]
+            continue
+        if t.op == "choice" and rel == "eq" and v in (0, 1):
+            # choice(pred, polarity): value 1 iff pred == polarity
+            pred, pol = t.args
+            t, v = pred, (pol if v == 1 else 1 - pol)
+            continue
+        if t.op == "is_variant" and rel == "eq" and v in (0, 1):
+            # is_variant(x, want) == 1  <=>  discr(x) == want   (two-variant enums)
+            x, want = t.args
+            t, v = mk("discr", x), (want if v == 1 else 1 - want)
+            continue
+        if t.op == "eq" and rel == "eq" and v in (0, 1) and t.args[1].op == "int" and t.args[1].args[1] == "bool":
+            # (b == true) == 1
+            t, v = t.args[0], (v if t.args[1].args[0] == 1 else 1 - v)
+            continue
+        if t.op == "ne" and rel == "eq" and v in (0, 1):
+            t, v = mk("eq", *t.args), 1 - v
+            continue
+        break
+    if rel == "notin" and len(v) == 1 and False:
+        pass
+    return (t, rel, v)
+
+
+def closure(eng, facts):
+    """close a fact set under: discr(enum-value) == k  =>  the facts attached to alternative k"""
+    out = set()
+    work = [norm_fact(f) for f in facts]
+    while work:
+        f = work.pop()
+        if f in out:
+            continue
+        out.add(f)
+        t, rel, v = f
+        if rel == "notin" and t.op == "discr" and t.args[0].op == "enum":
+            rest = [a for a in t.args[0].args[1] if a[0] not in v]
+            if len(rest) == 1:
+                work.append(norm_fact((t, "eq", rest[0][0])))
+        if rel == "eq" and t.op == "discr" and t.args[0].op == "enum":
+            for alt in t.args[0].args[1]:
+                if alt[0] == v:
+                    work.extend(norm_fact(x) for x in alt[3])
+                    if alt[4]:
+                        sets = [set(eng.facts_at(fk, b)) for (fk, b) in alt[4]]
+                        common = set.intersection(*sets) if sets else set()
+                        work.extend(norm_fact(x) for x in common)
+    return out
+
+
+def facts_of_variant(eng, ret, idx):
+    """facts known to hold whenever `ret` (an enum value) is alternative idx"""
+    a = variant(ret, idx)
+    if a is None:
+        return None
+    fs = set(a[3])
+    if a[4]:
+        sets = [set(eng.facts_at(fk, b)) for (fk, b) in a[4]]
+        fs |= set.intersection(*sets) if sets else set()
+    return closure(eng, fs)
+
+
+def show_fact(f, d=6):
+    t, rel, v = f
+    return "%s %s %s" % (show(t, d), rel, v)
